@@ -661,6 +661,7 @@ var arithWant = map[string]string{"+": "+", "-": "-", "*": "*", "/": "/", "^": "
 
 func ruleArith(c *Ctx) {
 	numPoolLiteralOnly(c)
+	compilerBuildsNoOperatorNodes(c)
 	vm := buildVMModel(c)
 	info := vm.pkg.TypesInfo
 	texts := tokenTexts(c)
@@ -728,6 +729,32 @@ func ruleArith(c *Ctx) {
 		for _, k := range c.constsOfType("internal/compiler", "AugOp") {
 			if v, ok := constant.Int64Val(k.Val()); ok {
 				augName[v] = k.Name()
+			}
+		}
+		// the augmented-assignment opcodes read the variable after the right-hand side has been evaluated; a plain
+		// assignment `x = x + f()` reads it before. The opcodes are therefore emitted only for augmented-assignment
+		// nodes: a shortcut that compiles `x = x OP e` to them changes the result whenever e changes x.
+		{
+			nAug, badPos := 0, token.NoPos
+			for i := range cm.recs {
+				r := &cm.recs[i]
+				if !strings.HasPrefix(r.op, "AugAssign") {
+					continue
+				}
+				nAug++
+				forAug := false
+				for _, t := range r.types {
+					if t == "AugAssignExpr" {
+						forAug = true
+					}
+				}
+				if !forAug {
+					badPos = r.pos
+				}
+			}
+			if nAug > 0 {
+				c.check(badPos == token.NoPos, "augassign:only-for-augassign", badPos, "the augmented-assignment opcodes are emitted only for augmented-assignment nodes",
+					"the compiler emits an augmented-assignment opcode on a path where the node is not an AugAssignExpr (a shortcut for `x = x OP e`): those opcodes read x after e has been evaluated, the plain assignment reads it before, so `x = x + f()` with an f that assigns x gives a different result as a statement than as an expression")
 			}
 		}
 		for _, tk := range arithTokens {
